@@ -16,16 +16,22 @@ Clause ids
                            gammatone) equal the uniformly spaced points of the scale, rel 1e-9
     C05.centres_increasing centres strictly increasing in Hz
     C05.centre_in_support  supports_hz[k][0] < centre_k < supports_hz[k][1]
-    C05.peak_gain          narrow filters (support < rate/2): |H| peaks at the centre, value 1
+    C05.peak_gain          narrow filters (supports_hz spans < rate/2): |H| peaks at the centre, value 1
                            within 2*THRESHOLD (peak position only when scale_l2_norm)
-    C05.l2_norm            scale_l2_norm: impulse response (buffer 4 x support) has L2 norm 1, rel 1e-3
+    C05.l2_norm            scale_l2_norm: impulse response (buffer 4 x support) has L2 norm 1, rel 1e-3;
+                           checked when the filter's own supports_hz or that of its unit-gain twin (same bank
+                           without scale_l2_norm) spans < rate/2 -- a wrong constant inflates the advertised
+                           support of exactly the filters the clause is about
     C05.triangle_values    tri / Fbank response == documented triangle at every bin, 1e-9
     C05.crossing_3db       erb=False Gabor/gammatone: gain at both own edges 3 dB under the peak
                            (amplitude within 2*THRESHOLD of [2**-0.5, 10**(-3/20)])
     C05.erb                erb=True: numerical ERB == edge spacing, rel 1e-3
-    C05.rejection          bad ranges raise ValueError
+    C05.rejection          low_hz < 0, or high_hz > 0 with high_hz <= low_hz or high_hz > rate/2 + 1: the constructor
+                           raises ValueError (run under np.errstate(raise) so that an arithmetic accident such as
+                           int(nan) after 0/0 does not pass for a rejection)
 """
 import math
+import time
 import warnings
 from fractions import Fraction
 
@@ -51,6 +57,10 @@ GAIN_3DB_HI = 10.0 ** (-3.0 / 20.0)  # exactly 3 dB
 # ----------------------------------------------------------------------------------------------
 # oracle: the documented scales
 # ----------------------------------------------------------------------------------------------
+
+
+class _OracleError(Exception):
+    """The oracle's own self-check failed (a fault of this stand-in, not of the library)."""
 
 
 def _scale_fns(sc):
@@ -98,7 +108,8 @@ def _expected_layout(spec):
     s_lo, s_hi = fwd(low), fwd(high)
     # self-check of the oracle's inverse
     for s in (s_lo, s_hi, 0.5 * (s_lo + s_hi)):
-        assert abs(fwd(inv(s)) - s) <= 1e-9 * max(1.0, abs(s)), "oracle scale inverse broken"
+        if not abs(fwd(inv(s)) - s) <= 1e-9 * max(1.0, abs(s)):
+            raise _OracleError(f"oracle scale inverse broken for {spec['scale']} at {s}")
     d = (s_hi - s_lo) / (n + 1)
     if spec["bank"] in ("tri", "fbank"):
         v = [inv(s_lo + k * d) for k in range(n + 2)]
@@ -468,7 +479,7 @@ _KINDS = {"layout": _check_layout, "triangle": _check_triangle, "response": _che
 def _evaluate(case):
     try:
         return _KINDS[case["kind"]](case)
-    except AssertionError:
+    except _OracleError:
         raise
     except Exception as e:  # an unexpected exception from the library is a failure of the clause family
         clause = {"layout": "C05.edge_spacing", "triangle": "C05.triangle_values", "response": "C05.peak_gain", "reject": "C05.rejection"}[case["kind"]]
@@ -659,26 +670,24 @@ def run(tier, seed):
     resp_budget = 30 if quick else 330
     order = _interleave(grid, rng.permutation(len(grid)))
     picks = core + [grid[i] for i in order]
-    import time as _time
-
-    t_start = _time.time()
+    t_start = time.time()
     n_resp_banks = 0
     wcap = 16384 if quick else 65536
     for spec in picks:
-        if _time.time() - t_start > resp_budget or col.too_many_failures():
+        if time.time() - t_start > resp_budget or col.too_many_failures():
             break
         n_resp_banks += 1
         for k in _pick_filters(spec["num_filts"], rng, tier):
             do({"kind": "response", "bank": spec, "filt": k, "wcap": wcap})
-            if _time.time() - t_start > resp_budget:
+            if time.time() - t_start > resp_budget:
                 break
 
     # 3. layout over the whole grid + seeded random configurations
     n_layout = 0
-    t_lay = _time.time()
+    t_lay = time.time()
     lay_budget = 8 if quick else 60
     for i in order:
-        if _time.time() - t_lay > lay_budget or col.too_many_failures():
+        if time.time() - t_lay > lay_budget or col.too_many_failures():
             break
         do({"kind": "layout", "bank": grid[i]})
         n_layout += 1
@@ -724,7 +733,7 @@ def run(tier, seed):
             "one case per (kind, bank configuration[, filter | DFT width]); kinds: layout (constructor vs documented scale layout), "
             "triangle (all filters, all bins of one width), response (one filter: peak/gain, 3 dB crossing or ERB, L2 norm), reject "
             "(constructor call).  Non-trivial: layout always; triangle if some bin has a positive expected value; response only if the "
-            "filter's supports_hz spans < rate/2 and the needed DFT width is under the cap; reject only if the statement calls the range bad"
+            "filter's supports_hz (for the L2 clause: or its unit-gain twin's) spans < rate/2 and the needed DFT width is under the cap; reject only if the statement calls the range bad"
         ),
         bound=(
             f"BOUNDED ({tier}): grid 4 banks x {len(SCALES_QUICK) + (0 if quick else len(SCALES_MORE))} scale instances x num_filts {NUM_FILTS} x rates {RATES} x 3 ranges x flags "
